@@ -284,29 +284,45 @@ End SqDist.
 
 (* ------------------------------------------------------------------ instances *)
 
+(* constants are folded only while they stay small: exact rational arithmetic on the products
+   of several 53-bit hyper-parameters is what dominates the run time, and the harness
+   evaluates unfolded nodes just as exactly *)
+Definition qbits (q : Qc) : Z :=
+  (Z.log2 (Z.abs (Qnum (this q)) + 1) + Z.log2 (Zpos (Qden (this q))))%Z.
+Definition small2 (x y : Qc) : bool := (qbits x + qbits y <=? 160)%Z.
+
 Definition sadd (a b : expr) : expr :=
   match a, b with
-  | EConst x, EConst y => EConst (x + y)%Qc
+  | EConst x, EConst y =>
+      if Qc_eqb x 0 then b else if Qc_eqb y 0 then a
+      else if small2 x y then EConst (x + y)%Qc else EAdd a b
   | EConst x, _ => if Qc_eqb x 0 then b else EAdd a b
   | _, EConst y => if Qc_eqb y 0 then a else EAdd a b
   | _, _ => EAdd a b
   end.
 Definition ssub (a b : expr) : expr :=
   match a, b with
-  | EConst x, EConst y => EConst (x - y)%Qc
+  | EConst x, EConst y =>
+      if Qc_eqb y 0 then a else if small2 x y then EConst (x - y)%Qc else ESub a b
   | _, EConst y => if Qc_eqb y 0 then a else ESub a b
   | _, _ => ESub a b
   end.
 Definition smul (a b : expr) : expr :=
   match a, b with
-  | EConst x, EConst y => EConst (x * y)%Qc
+  | EConst x, EConst y =>
+      if Qc_eqb x 1 then b else if Qc_eqb y 1 then a
+      else if Qc_eqb x 0 then EConst 0 else if Qc_eqb y 0 then EConst 0
+      else if small2 x y then EConst (x * y)%Qc else EMul a b
   | EConst x, _ => if Qc_eqb x 1 then b else if Qc_eqb x 0 then EConst 0 else EMul a b
   | _, EConst y => if Qc_eqb y 1 then a else if Qc_eqb y 0 then EConst 0 else EMul a b
   | _, _ => EMul a b
   end.
 Definition sdiv (a b : expr) : expr :=
   match a, b with
-  | EConst x, EConst y => if Qc_eqb y 0 then EDiv a b else EConst (x / y)%Qc
+  | EConst x, EConst y =>
+      if Qc_eqb y 1 then a
+      else if Qc_eqb y 0 then EDiv a b
+      else if small2 x y then EConst (x / y)%Qc else EDiv a b
   | _, EConst y => if Qc_eqb y 1 then a else EDiv a b
   | _, _ => EDiv a b
   end.
